@@ -14,7 +14,7 @@ def run(chk):
     P0, P1 = ('prop', 'v0'), ('prop', 'v1')
     taut = [('true',), ('EF', ('true',)), ('AG', ('or', P0, ('not', P0))), ('forall', 'x', None, ('or', ('EF', ('var', 'x')), ('not', ('EF', ('var', 'x'))))), ('iff', P0, P0), ('false',), ('not', ('true',))]
     sib = G.siblings(['v0', 'v1'])
-    forms = taut + sib + core + rnd
+    forms = taut + sib + G.swapped_duplicates() + core + rnd
     for inst in UC.instances(['U2', 'C2'] + (['M2'] if thorough else [])):
         for f in forms:
             d = S.quant_depth(f)
